@@ -443,6 +443,25 @@ Theorem C03_store_total : forall (A : Type) (zero : A) (scale : A -> A) (c : Z) 
 Proof. exact (@store_total). Qed.
 Print Assumptions C03_store_total.
 
+(* totality of the dispatch: with raw data, TemplateModel.get_waveforms always answers with one entry per
+   queried id (store when it holds every queried id, raw data otherwise), for every query inside spike_samples
+   (negative ids wrap) on channels in {-1} u [0, c): no error exit is reachable.  Without raw data the only
+   error exit is a queried id that the store does not hold (C03_route_model_fallback). *)
+Theorem C03_route_model_total : forall (A : Type) (zero : A) (scale : A -> A) (c : Z) (data sdata : list (list A))
+    (samples : list Z) (n nch : Z) (spikes : list spike) (ids q_ids : list Z) (channel_ids : option (list Z)),
+  rect c data -> 1 <= c -> 1 <= n ->
+  Forall (fun s => 0 <= s < zlen data) samples ->
+  Forall (fun sp => chans_ok c (sp_ch sp)) spikes ->
+  Forall (fun x => 0 <= x) ids -> zlen ids = zlen spikes ->
+  Forall (fun i => - zlen samples <= i < zlen samples) q_ids ->
+  chans_ok c (route_chans nch channel_ids) ->
+  exists w,
+    model_get_waveforms zero (Some data)
+      (Some (mkstore ids (map sp_ch spikes) (scaled_windows zero scale sdata n spikes)))
+      samples n nch q_ids channel_ids = GwOut w /\ zlen w = zlen q_ids.
+Proof. exact (@route_total). Qed.
+Print Assumptions C03_route_model_total.
+
 (* ---- stage 3: non-vacuity ---- *)
 (* the concrete byte layout of ModelNpy.v (lay_*: itemsize 2/4/8; an element = its value followed by zero bytes;
    the header = number of dimensions, the dimensions, a dtype code) meets the premises *)
